@@ -89,3 +89,24 @@ Qed.
 (* the inputs and the number of outputs are unaffected *)
 Theorem hist_outputs n : forall d, length (fst (hist n d)) = n.
 Proof. induction n as [|n IH]; intros d; cbn [hist]; [reflexivity|]. specialize (IH (next_d d)). destruct (hist n (next_d d)). cbn [fst] in *. simpl. lia. Qed.
+
+(* custom_vjp: the forward value is that of the original function whatever the rule; the rule is what differentiation sees, for
+   exactly the variables of the selected collections and for every input *)
+Theorem custom_vjp_forward f d rv ri ct : fst (fst (custom_vjp_model f d rv ri ct)) = custom_vjp_value d.
+Proof. reflexivity. Qed.
+Theorem custom_vjp_routing f d rv ri ct : map fst (snd (fst (custom_vjp_model f d rv ri ct))) = selected f d.
+Proof. unfold custom_vjp_model, vjp_model. cbn [fst snd]. rewrite !map_map. cbn [fst]. apply map_id. Qed.
+Theorem custom_vjp_rule_vars f d rv ri ct i g : In (i, g) (snd (fst (custom_vjp_model f d rv ri ct))) -> g = rv * (ct * partial d i).
+Proof.
+  unfold custom_vjp_model, vjp_model. cbn [fst snd]. rewrite map_map. cbn [fst snd]. intros H.
+  apply in_map_iff in H as (j & E & _). now inversion E.
+Qed.
+Theorem custom_vjp_rule_inputs f d rv ri ct k : (k < nins d)%nat ->
+  nth k (snd (custom_vjp_model f d rv ri ct)) 0 = ri * (ct * partial d (nvars d + k)).
+Proof.
+  intros Hk. unfold custom_vjp_model, vjp_model. cbn [fst snd]. rewrite map_map.
+  assert (G : forall n s j, (j < n)%nat -> nth j (map (fun x => ri * (ct * partial d (nvars d + x))) (seq s n)) 0 = ri * (ct * partial d (nvars d + (s + j)))).
+  { induction n as [|n IH]; intros s j Hj; [lia|]. cbn [seq map]. destruct j as [|j]; cbn [nth]; [now rewrite Nat.add_0_r|].
+    rewrite IH by lia. do 4 f_equal. lia. }
+  now rewrite G.
+Qed.
